@@ -50,15 +50,23 @@ Theorem C13_reverse_apply_userord_partial :
 Proof. exact reverse_apply_userord_partial. Qed.
 Print Assumptions C13_reverse_apply_userord_partial.
 
-(* Even inside that fragment the pointer returned in *data need not be the first sibling.
-   Witness A = 1 2 3, B = 3 1 2 (one move): the list is 1 2 3 again but *data points at 2
-   (lyd_diff_insert sets *first_node to the anchor when the moved node was *first_node). *)
-Theorem C13_reverse_first_sibling_refuted :
-  exists l1 l2 l f, NoDup l1 /\ NoDup l2 /\
-    count_op OpDelete (userord_diff l1 l2) = O /\ count_op OpReplace (userord_diff l1 l2) = 1%nat /\
-    reverse_apply_full (userord_diff l1 l2) l2 = Ok (l, f) /\ f <> hd_error l.
-Proof. exact reverse_first_sibling_refuted. Qed.
-Print Assumptions C13_reverse_first_sibling_refuted.
+(* Inside that fragment the pointer returned in *data is the first sibling of the restored list too
+   (since /repo commit a54f28a; before it, lyd_diff_insert set *first_node to the anchor when the moved
+   node was *first_node, and this file held the refutation C13_reverse_first_sibling_refuted with the
+   witness below, which is kept as a regression). *)
+Theorem C13_reverse_apply_userord_partial_pointer :
+  forall l1 l2, NoDup l1 -> NoDup l2 ->
+  count_op OpDelete (userord_diff l1 l2) = O ->
+  (count_op OpReplace (userord_diff l1 l2) <= 1)%nat ->
+  reverse_apply_full (userord_diff l1 l2) l2 = Ok (l1, hd_error l1).
+Proof. exact reverse_apply_full_userord_partial. Qed.
+Print Assumptions C13_reverse_apply_userord_partial_pointer.
+
+(* Former witness A = 1 2 3, B = 3 1 2 (one move): the list is 1 2 3 again and *data points at 1
+   (it pointed at 2 before a54f28a). *)
+Example C13_reverse_first_sibling_regression :
+  reverse_apply_full (userord_diff [1; 2; 3] [3; 1; 2]) [3; 1; 2] = Ok ([1; 2; 3], Some 1).
+Proof. exact reverse_pointer_regression. Qed.
 
 (* the hypotheses of the partial theorem are satisfiable by a non-trivial pair: two creates around one move *)
 Example C13_userord_partial_example :
